@@ -3,7 +3,7 @@ from ..harnesses import HStory, HItem, HMixed
 
 
 # stories without timing metadata in front of, between and behind stories with it
-MIXED_TIMING = {'A': 'nometa', 'AB': 'dur', 'C': 'none', 'D': 'both', 'E': 'nometa', 'F': 'text'}
+MIXED_TIMING = {'A': 'nometa', 'AB': 'dur', 'C': 'none', 'D': 'nopayload', 'E': 'both', 'F': 'text'}
 
 
 def mixed_part(tier, mon):
